@@ -12,6 +12,7 @@ NOT modelled; it is exercised by the round trip of the harness and trusted.
 -/
 import OdcGeo.Model.IO
 import OdcGeo.Model.C05
+import OdcGeo.Model.CogShared
 namespace OdcGeo.C15
 open OdcGeo.C05 (adjustBlocksize alignUp YX)
 
@@ -107,6 +108,69 @@ def normCompressionOpts (c : CompArg) (defaultCompress : String := "deflate") (d
   | .flag false => [("compress", "None")]
   | .name s => [("compress", s)]
   | .opts kv => kv
+
+/-! ### the array as a whole: layout normalisation then level selection (`_write_cog`, 109-130) -/
+
+/-- `pix.transpose([2, 0, 1])` (or nothing): element `[k, y, x]` of the band-first array handed to GDAL -/
+def normalise {α : Type} (l : Layout) (pix : Nat → Nat → Nat → α) : Nat → Nat → Nat → α :=
+  fun k y x => let (i, j, m) := srcIndex l k y x; pix i j m
+
+/-- the overview levels a call ends up with for an array of shape `shape` over GeoBox shape `g`: the layout is
+normalised FIRST, the default rule then looks at the spatial width / height only -/
+def levelsForArray (requested : Option (List Nat)) (shape : List Nat) (g : YX) : Except LErr (List Nat) :=
+  match normLayout shape g with
+  | .error e => .error e
+  | .ok l => .ok (levelsFor requested l.w l.h)
+
+/-! ### nodata resolution (`write_cog` 281-285, `write_cog_layers` 407-418) -/
+
+/-- a number as callers spell it; all spellings of one value are accepted and mean that value -/
+inductive Num where
+  | pyInt (v : Int)
+  | pyFloat (v : Rat)
+  | npScalar (dtype : String) (v : Rat)     -- np.int16(-9999), np.float32(...), np.float64, np.int64 …
+  | arr0d (dtype : String) (v : Rat)        -- np.array(v, dtype)
+  | nan (spelling : String)                 -- float('nan'), np.float32('nan'), …
+  deriving DecidableEq, Repr
+
+/-- the value GDAL is given (`none` = NaN) -/
+def Num.value : Num → Option Rat
+  | .pyInt v => some v
+  | .pyFloat v => some v
+  | .npScalar _ v => some v
+  | .arr0d _ v => some v
+  | .nan _ => none
+
+inductive Entry where
+  | writeCog | toCog | writeCogLayers | writeCogOverviews   -- write_cog(overviews=…) goes through write_cog_layers
+  deriving DecidableEq, Repr
+
+/-- which nodata the file gets: `write_cog`: `nodata = extra_rio_opts.pop("nodata", None); if nodata is None: nodata =
+geo_im.attrs.get("nodata")`; `write_cog_layers`: `_default_cog_opts(nodata=pix.attrs.get("nodata"))` then
+`rio_opts.update(extra_rio_opts)`, and the temp images get `rio_opts.get("nodata")`.  Either way: an explicit keyword
+wins (a keyword of `None` is "not given"), else the attribute of the (first) image, else no nodata. -/
+def resolveNodata (_e : Entry) (kw attrs : Option Num) : Option Num :=
+  match kw with
+  | some v => some v
+  | none => attrs
+
+/-! ### `_norm_compression_opts`: whose dict is returned -/
+
+/-- `true` when the returned dict is a new object; a dict argument is returned AS IS (the caller's own object) -/
+def normCompressionFresh : CompArg → Bool
+  | .flag _ => true
+  | .name _ => true
+  | .opts _ => false
+
+/-- callers of `_norm_compression_opts` and what they do with the result: `_write_cog` only reads it
+(`tmp_opts.update(result)`), `write_cog_layers` spreads it into a new dict literal — neither writes into it -/
+inductive NormUse where
+  | readOnlyUpdateSource | spreadIntoNewDict
+  deriving DecidableEq, Repr
+
+def NormUse.writesInto : NormUse → Bool
+  | .readOnlyUpdateSource => false
+  | .spreadIntoNewDict => false
 
 /-! ### reference (GDAL, not odc-geo): size of the overview for decimation `l` -/
 
